@@ -89,6 +89,59 @@ def rtSideZ (norm : String → String) : List GoVal → List GoTy → Bool
   | _, _ => true
 end
 
+/-! ### numbers: the representation invariant of the wire form and "is the integer k" -/
+
+/-- the normal form every `Num` has that the codec delivers and `Num.mk` builds:
+odd mantissa, zero as mantissa 0 with exponent 0 (a representation invariant,
+not a restriction on the number: see `normal_mk`) -/
+def normalNum : Num → Bool
+  | .fin _ m e _ => if m = 0 then e == 0 else m % 2 == 1
+  | .inf _ => true
+
+/-- `x` is finite and its exact value `±m·2^e` is the integer `k`
+(cross-multiplied, so that no fraction is needed) -/
+def IsTheInt (x : Num) (k : Int) : Prop :=
+  match x with
+  | .fin n m e _ => (if n then -(m : Int) else (m : Int)) * 2 ^ e.toNat = k * 2 ^ (-e).toNat
+  | .inf _ => False
+
+/-! ### shapes (for "shape mismatches are refused") -/
+
+/-- does a known, non-null value of cty type `ty` have a shape the (pointer-stripped)
+Go target type accepts at all?  (`cty.Value` accepts everything; big.Int/big.Float
+are structs without tagged fields and accept objects, by design of the struct rule) -/
+def shapeOK : Ty → GoTy → Bool
+  | _, .cval => true
+  | .bool, .bool => true
+  | .string, .str => true
+  | .number, .int _ _ => true
+  | .number, .float _ => true
+  | .number, .bigInt => true
+  | .number, .bigFloat => true
+  | .list _, .slice _ => true
+  | .list _, .array _ _ => true
+  | .set _, .slice _ => true
+  | .set _, .array _ _ => true
+  | .map _, .map _ => true
+  | .object _ _ _, .struct _ _ => true
+  | .object _ _ _, .bigInt => true
+  | .object _ _ _, .bigFloat => true
+  | .tuple _, .struct _ _ => true
+  | _, _ => false
+
+/-- the payload is a known, non-null, unmarked one of the kind its type dictates
+(what every `cty.Value` satisfies, C06) -/
+def kindOK : Ty → Payload → Bool
+  | .bool, .b _ => true
+  | .number, .n _ => true
+  | .string, .s _ => true
+  | .list _, .seq _ => true
+  | .tuple _, .seq _ => true
+  | .map _, .smap _ _ => true
+  | .object names _ _, .smap ks _ => ks == names
+  | .set _, .sset _ _ => true
+  | _, _ => false
+
 /-- no marker anywhere in the value -/
 def unmarkedDeep (v : Value) : Bool := !v.containsMarked
 
